@@ -57,6 +57,7 @@ type FixedClock struct {
 
 func (c *FixedClock) Now() time.Time { return c.T }
 func (c *FixedClock) NewTicker(time.Duration) *time.Ticker {
+	vsched.Yield() // a scheduling point inside lazy initialisations that create their ticker
 	return &time.Ticker{C: c.Ch}
 }
 
